@@ -122,4 +122,41 @@ example : (runMulti [82] (MSt.init exScripts) exSchedule).map (fun m => ((m 1).w
 
 example : MReachable [82] exScripts (MSt.init exScripts) := MReachable.init
 
+/-! ### several calls through one zRPC server interceptor / several fx.DoWithTimeout calls -/
+
+/-- **Calls are independent.**  For every number of calls in flight, every work and every interleaving: the state of
+each call is a reachable state of its own single-call system (`stepf` = `srvStep` or `fxStep`). -/
+theorem multi_call_independent (stepf : SelSt → SelLabel → Option SelSt) (works : Nat → Work) (m : MSel)
+    (hr : MSelReach stepf works m) (i : Nat) : SelReach stepf (works i) (m i) := by
+  induction hr with
+  | init => exact SelReach.init
+  | @step m m' k l _ hs ih =>
+    unfold mselStep at hs
+    split at hs
+    · rename_i s' hs'
+      cases hs
+      by_cases hik : i = k
+      · subst hik; simp only [if_true]; exact SelReach.step l ih hs'
+      · simp only [hik, if_false]; exact ih
+    · cases hs
+
+/-- the outcome law for every call of every interleaving of calls through one server interceptor: what call `i` returns
+is ITS OWN work's (resp, err), or the timeout result of ITS OWN context's end, or its own work's panic -/
+theorem multi_rpc_result_or_timeout (works : Nat → Work) (m : MSel) (hr : MSelReach srvStep works m) (i : Nat) (o : Outcome)
+    (ho : (m i).out = some o) : OutcomeOK (works i) (m i).ctxErr o :=
+  rpc_result_or_timeout (works i) (m i) (multi_call_independent srvStep works m hr i) o ho
+
+theorem multi_fx_result_or_timeout (works : Nat → Work) (m : MSel) (hr : MSelReach fxStep works m) (i : Nat) (o : Outcome)
+    (ho : (m i).out = some o) : FxOutcomeOK (works i) (m i).ctxErr o :=
+  fx_result_or_timeout (works i) (m i) (multi_call_independent fxStep works m hr i) o ho
+
+/-- non-vacuity: call 0 (work panics late) has timed out; call 1 (work returns 5) completes: a reachable two-call state -/
+def exWorks : Nat → Work
+  | 0 => .panic 7
+  | 1 => .ret 5 0
+  | _ => .never
+
+example : ∃ m, MSelReach srvStep exWorks m ∧ (m 0).out = some (.timeout .deadline) ∧ (m 1).out = none := by
+  refine ⟨_, MSelReach.step 0 .mTimeout (MSelReach.step 0 (.env .deadline) MSelReach.init rfl) rfl, ?_, ?_⟩ <;> rfl
+
 end GoZero.C04.Props
